@@ -368,6 +368,10 @@ fn main() {
                             let id = reg.name(&mut xot, &sp, u);
                             kids.push(ANode::Elem { name: id, ns: vec![], attrs: vec![], kids: vec![] });
                         }
+                        // ... and in a foreign namespace, with markup characters in a text child: there the name means nothing
+                        // (end tag, escaped text), whatever its spelling
+                        let id = reg.name(&mut xot, &sp, pool.uris[5]);
+                        kids.push(ANode::Elem { name: id, ns: vec![], attrs: vec![], kids: vec![ANode::Text("a<b&c".into())] });
                     }
                 }
                 let div = reg.name(&mut xot, "div", 0);
